@@ -6,7 +6,24 @@ def c08(ctx):
     ctx.gotest("cmdcc", "^TestVerifC08", race=False, timeout=300)
 
 
+def c06(ctx):
+    if ctx.tier == "quick":
+        ctx.gotest("cc", "^TestVerifC06", timeout=600)
+    else:
+        shards = 16
+        import concurrent.futures as cf
+        ctx.build_test("internal/app/connectconformance", False, "cc")
+        with cf.ThreadPoolExecutor(shards) as ex:
+            list(ex.map(lambda i: ctx.gotest("cc", "^TestVerifC06", timeout=3000, label="cc-c06-%d" % i,
+                                             env={"VERIF_SHARD": str(i), "VERIF_SHARDS": str(shards)}), range(shards)))
+
+
 SPECS = {
+    "C06": {"fn": c06, "level": "exploration",
+            "technique": "runtime monitoring: reference-model monitor (declarative set comprehension) compared with the real parseConfig on a bounded-exhaustive feature slice and seeded random configs",
+            "text": "parseConfig is executed on every feature block of a 4.5M-config slice (thorough: complete, 16 shards; quick: 1/64 stratified) and on 60k-1.1M random configs with include/exclude entries; an independent comprehension of the documented semantics decides set equality, possibility of every returned case, and the must/may-error rule.",
+            "note": "Trusts the comprehension in harness/cc/model_config_test.go as the meaning of docs/configuring_and_running_tests.md; entries denoting the empty set may (but need not) be rejected; YAML syntax is protoyaml's business (inputs are protojson).",
+            "assumptions": ["model_config_test.go is the specification of config expansion"]},
     "C08": {"fn": c08, "level": "exploration",
             "technique": "runtime monitoring: reference-model monitor (independent glob matcher) evaluated next to the real trie/filter/flag collection on bounded-exhaustive and seeded random inputs",
             "text": "The real parsePatterns/matchPattern, testCaseFilter, tryMatchPatterns, run() ambiguity check and argsToPatterns are executed on every pattern set of a bounded alphabet (all single patterns of length<=4, all pairs of length<=3, sampled triples, random longer ones) and on every split of a pattern list across flags and @files; an independent 10-line glob model is the oracle. Exhaustive over the small slice where every matcher branch is reachable, sampled beyond.",
